@@ -4,163 +4,11 @@ package goat
 
 import (
 	"context"
-	"math"
 	"time"
 
 	"github.com/avos-io/goat/gen/goatorepo"
 	"google.golang.org/grpc/metadata"
 )
-
-// specTimeout is the reference reading of the gRPC timeout grammar (weakest reading
-// of C08): class 0 = must be rejected; 1 = must be accepted with value exact;
-// 2 = more than 8 digits: rejected, or accepted with value exact.
-func specTimeout(s string) (class int, exact int64) {
-	n := len(s)
-	if n < 2 {
-		return 0, 0
-	}
-	var unit int64
-	switch s[n-1] {
-	case 'H':
-		unit = int64(time.Hour)
-	case 'M':
-		unit = int64(time.Minute)
-	case 'S':
-		unit = int64(time.Second)
-	case 'm':
-		unit = int64(time.Millisecond)
-	case 'u':
-		unit = int64(time.Microsecond)
-	case 'n':
-		unit = 1
-	default:
-		return 0, 0
-	}
-	var v int64
-	for i := 0; i < n-1; i++ {
-		c := s[i]
-		if c < '0' || c > '9' {
-			return 0, 0
-		}
-		if v > (math.MaxInt64-9)/10 {
-			// more than 18 digits of magnitude: saturated in any unit
-			v = math.MaxInt64 / 2
-		} else {
-			v = v*10 + int64(c-'0')
-		}
-	}
-	if v > math.MaxInt64/unit {
-		exact = math.MaxInt64
-	} else {
-		exact = v * unit
-	}
-	if n-1 <= 8 {
-		return 1, exact
-	}
-	return 2, exact
-}
-
-// H_C08_parse: the real parser against the specification for every string of
-// length n (every byte value).
-func H_C08_parse() {
-	n := vfParam("n", 3)
-	s := vfString("timeout", n)
-	d, ok := parseGrpcTimeout(s)
-	class, exact := specTimeout(s)
-	switch class {
-	case 0:
-		vfAssert(!ok, "malformed-value-rejected")
-		vfReach("malformed")
-	case 1:
-		vfAssert(ok, "wellformed-value-accepted")
-		if ok {
-			vfAssert(int64(d) == exact, "value-exact-saturating")
-			vfAssert(d >= 0, "value-nonnegative")
-		}
-		vfReach("wellformed")
-	default:
-		if ok {
-			vfAssert(int64(d) == exact, "overlong-value-exact-or-ignored")
-			vfAssert(d >= 0, "overlong-value-nonnegative")
-		}
-		vfReach("overlong")
-	}
-}
-
-// letter-case variants of "grpc-timeout": each letter independently upper or lower.
-func zzTimeoutKey(label string) string {
-	base := "grpc-timeout"
-	b := make([]byte, len(base))
-	for i := 0; i < len(base); i++ {
-		c := base[i]
-		if c >= 'a' && c <= 'z' {
-			x := vfByte(label)
-			vfAssume(x|0x20 == c) // c is a lower-case letter: x is c in either case
-			c = x
-		}
-		b[i] = c
-	}
-	return string(b)
-}
-
-// H_C08_lookup: header lookup in contextFromHeaders over a symbolic header list.
-func H_C08_lookup() {
-	entries := vfParam("entries", 2)
-	vlen := vfParam("vlen", 3)
-	var hs []*goatorepo.KeyValue
-	firstOK := -1
-	var want int64
-	for i := 0; i < entries; i++ {
-		var key string
-		isT := false
-		switch vfChoice("keykind", 4) {
-		case 0:
-			key = zzTimeoutKey("case")
-			isT = true
-		case 1:
-			key = "x-other"
-		case 2:
-			key = "grpc-timeouts"
-		default:
-			key = "grpc-timeou"
-		}
-		val := vfString("val", vlen)
-		hs = append(hs, &goatorepo.KeyValue{Key: key, Value: val})
-		if isT && firstOK < 0 {
-			class, exact := specTimeout(val)
-			if class == 1 {
-				firstOK = i
-				want = exact
-			}
-		}
-	}
-	at := time.Now()
-	vfFreezeClock(true)
-	ctx, cancel, err := contextFromHeaders(context.Background(), &goatorepo.RequestHeader{Headers: hs})
-	vfFreezeClock(false)
-	vfAssert(err == nil, "no-error-for-text-metadata")
-	defer cancel()
-	dl, has := ctx.Deadline()
-	if firstOK >= 0 {
-		vfAssert(has, "deadline-set-for-valid-timeout-header")
-		if has {
-			if vfIsSymbolic() {
-				// the clock is frozen inside the call: the deadline is exactly arrival + timeout
-				vfAssert(dl.Sub(at) == time.Duration(want), "deadline-equals-arrival-plus-exact-timeout")
-			} else {
-				// native replay: real time passes between the two clock readings
-				d := dl.Sub(at)
-				vfAssert(d >= time.Duration(want) && d < time.Duration(want)+time.Second, "deadline-equals-arrival-plus-exact-timeout")
-			}
-		}
-		vfReach("has-deadline")
-	} else {
-		vfAssert(!has, "no-deadline-without-valid-timeout-header")
-		vfReach("no-deadline")
-	}
-	md, ok := metadata.FromIncomingContext(ctx)
-	vfAssert(ok && len(md) >= 1, "metadata-still-delivered")
-}
 
 // H_C08_client: client encoding of a symbolic deadline and its interpretation by the
 // real server side (format/parse agreement and the end-to-end deadline relation).
@@ -168,7 +16,7 @@ func H_C08_client() {
 	const ms = int64(time.Millisecond)
 	t0 := time.Now()
 	delta := vfInt64("delta")
-	vfAssume(delta >= -(1 << 40)) // -18 min ..
+	vfAssume(delta >= -(1 << 40))        // -18 min ..
 	vfAssume(delta <= 36000000000000000) // .. 10^4 h
 	dl := t0.Add(time.Duration(delta))
 	cctx, ccancel := context.WithDeadline(context.Background(), dl)
